@@ -1327,7 +1327,7 @@ func single(d ID, pid uint8, body int, k byte, tags ...uint32) *op {
 func main() {
 	fl := vh.ParseFlags()
 	out = vh.NewOut("C15", fl, "From XMT Require Import Base.Prelude Model.Table.", "case", "check",
-		"histories of 6..30 operations (registration, single packets, FlagMulti batches, multi-device batches, tag lists, sends, lookups, removals, "+
+		"histories of 8..40 operations with Channels (hello, Channel start, Channel packets with full / shorter / empty / re-added / unknown / own / zero / colliding tag lists through the real conn.channelRead, Channel end, sends, polls) and histories of 6..30 operations (registration, single packets, FlagMulti batches, multi-device batches, tag lists, sends, lookups, removals, "+
 			"Sessions) on a real Server+Listener and on a real Proxy, over pools of 2..9 device IDs that include 0..3 pairs with equal ID.Hash() found by "+
 			"birthday search from the seed; distinct = distinct Coq case term; non-trivial = at least two sessions (proxy clients) were registered at once "+
 			"and at least two packets were dispatched")
@@ -1472,6 +1472,9 @@ func main() {
 		reg := func(x ID) *cop { return &cop{kind: cReg, d: x, job: nextJob()} }
 		snd := func(x ID) *cop { return &cop{kind: cSend, d: x, pid: uint8(0xD0 + rng.Intn(8)), job: nextJob()} }
 		pk := func(x ID, t ...uint32) *cop { return &cop{kind: cPkt, d: x, tags: t} }
+		// chan_demo of Proofs/Table.v (C15_channel_nonvacuous)
+		runChan([]ID{fa, fc}, []*cop{{kind: cReg, d: fa, job: 10}, {kind: cReg, d: fc, job: 11}, {kind: cPoll, d: fa}, {kind: cPoll, d: fc}, {kind: cOpen, d: fa},
+			pk(fa, fc.Hash()), {kind: cSend, d: fc, pid: 208, job: 12}, pk(fa), {kind: cSend, d: fc, pid: 209, job: 13}}, "corpus-chan")
 		// the host tags c, then nobody (empty list), then c again, then ends; a packet is queued for c in each phase
 		runChan([]ID{a, c}, []*cop{reg(a), reg(c), {kind: cPoll, d: a}, {kind: cPoll, d: c}, {kind: cOpen, d: a}, pk(a, c.Hash()), snd(c), pk(a), snd(c),
 			{kind: cPoll, d: c}, pk(a, c.Hash()), snd(c), {kind: cClose, d: a}, snd(c), {kind: cPoll, d: c}, {kind: cPoll, d: a}}, "corpus-chan")
